@@ -119,6 +119,9 @@ func (its *WiredDatatype) calculatePullingOperations(newCheckPoint *model.CheckP
 
 func (its *WiredDatatype) checkOptionAndError(ppp *model.PushPullPack) errors.OrdaError {
 	if ppp.GetPushPullPackOption().HasErrorBit() {
+		if len(ppp.GetOperations()) == 0 {
+			return errors.ClientSync.New(its.L(), "error response without an error operation")
+		}
 		modelOp := ppp.GetOperations()[0]
 		errOp, ok := operations.ModelToOperation(modelOp).(*operations.ErrorOperation)
 		if ok {
@@ -134,6 +137,9 @@ func (its *WiredDatatype) checkOptionAndError(ppp *model.PushPullPack) errors.Or
 		}
 		return errors.ClientSync.New(its.L(), "error response without an error operation")
 	} else if ppp.GetPushPullPackOption().HasSubscribeBit() && its.state != model.StateOfDatatype_SUBSCRIBED {
+		if len(ppp.GetOperations()) == 0 {
+			return errors.DatatypeSubscribe.New(its.L(), "subscribe without SnapshotOp")
+		}
 		modelOp := ppp.GetOperations()[0]
 		_, ok := operations.ModelToOperation(modelOp).(*operations.SnapshotOperation)
 		if !ok {
